@@ -38,7 +38,7 @@ fn config_text(r: &Rendered, generator: &str, rules: &[&str]) -> String {
         Some(m) => format!(", modules_identifier: '{}'", m),
         None => String::new(),
     };
-    let mode = if r.aliases.is_empty() {
+    let mode = if r.aliases.is_empty() || r.batch.is_some() {
         format!("'{}'", r.mode)
     } else {
         let entries: Vec<String> = r.aliases.iter().map(|(k, v)| format!("'{}': '{}'", k, v)).collect();
@@ -96,7 +96,61 @@ fn process_files(files: Vec<(String, String)>, entry: String, config: String) ->
     }
 }
 
+/// several entries in ONE darklua run (`WorkerTree` with one source per entry, in the given order); the result is
+/// the bundle of `entry`
+fn process_batch(files: Vec<(String, String)>, entries: Vec<String>, entry: String, config: String) -> Real {
+    let (tx, rx) = std::sync::mpsc::channel();
+    std::thread::spawn(move || {
+        let result = std::panic::catch_unwind(std::panic::AssertUnwindSafe(|| {
+            let resources = darklua_core::Resources::from_memory();
+            for (path, content) in &files {
+                resources.write(path, content).unwrap();
+            }
+            let configuration: darklua_core::Configuration = match json5::from_str(&config) {
+                Ok(c) => c,
+                Err(e) => return Real::Panic(format!("harness: bad configuration {}: {}", config, e)),
+            };
+            let mut tree = darklua_core::WorkerTree::default();
+            let mut wanted = String::new();
+            for (i, e) in entries.iter().enumerate() {
+                let output = format!("out/e{}.lua", i);
+                if *e == entry { wanted = output.clone(); }
+                tree.add_source(e, Some(std::path::PathBuf::from(output)));
+            }
+            let options = darklua_core::Options::new(&entries[0]).with_output("out").with_configuration(configuration);
+            match tree.process(&resources, options) {
+                Err(e) => Real::Errors(e.to_string()),
+                Ok(()) => match tree.result() {
+                    Ok(()) => match resources.get(&wanted) {
+                        Ok(text) => Real::Ok(text),
+                        Err(_) => Real::Errors("no output written".to_owned()),
+                    },
+                    Err(errors) => Real::Errors(errors.iter().map(|e| e.to_string()).collect::<Vec<_>>().join("\n")),
+                },
+            }
+        }));
+        let _ = tx.send(match result {
+            Ok(r) => r,
+            Err(p) => Real::Panic(
+                p.downcast_ref::<String>().cloned().or_else(|| p.downcast_ref::<&str>().map(|s| (*s).to_owned())).unwrap_or_default(),
+            ),
+        });
+    });
+    match rx.recv_timeout(std::time::Duration::from_secs(20)) {
+        Ok(r) => r,
+        Err(_) => match rx.recv_timeout(std::time::Duration::from_secs(280)) {
+            Ok(r) => r,
+            Err(_) => Real::Timeout,
+        },
+    }
+}
+
 pub fn run_real(r: &Rendered, generator: &str, rules: &[&str]) -> Real {
+    if let Some(batch) = &r.batch {
+        let mut files = r.files.clone();
+        files.extend(batch.extra_files.iter().cloned());
+        return process_batch(files, batch.entries.clone(), r.entry.clone(), config_text(r, generator, rules));
+    }
     process_files(r.files.clone(), r.entry.clone(), config_text(r, generator, rules))
 }
 
@@ -502,6 +556,7 @@ pub fn rendered_json(r: &Rendered) -> Value {
         "sites": r.sites.iter().map(|ss| ss.iter().map(|s| json!({"literal": s.literal, "string_form": s.string_form, "shadowed": s.shadowed, "target": s.target})).collect::<Vec<_>>()).collect::<Vec<_>>(),
         "reference": r.reference,
         "data_lua": r.data_lua,
+        "batch": r.batch.as_ref().map(|b| json!({"entries": b.entries, "extra_files": b.extra_files.iter().map(|(p, c)| json!([p, c])).collect::<Vec<_>>()})),
     })
 }
 
@@ -537,6 +592,14 @@ pub fn rendered_from_json(v: &Value) -> Option<Rendered> {
         for (k, val) in map {
             r.data_lua.insert(k.clone(), val.as_str()?.to_owned());
         }
+    }
+    if v["batch"].is_object() {
+        let mut b = g::Batch::default();
+        b.entries = v["batch"]["entries"].as_array()?.iter().filter_map(|x| x.as_str().map(|s| s.to_owned())).collect();
+        for f in v["batch"]["extra_files"].as_array()? {
+            b.extra_files.push((f[0].as_str()?.to_owned(), f[1].as_str()?.to_owned()));
+        }
+        r.batch = Some(b);
     }
     Some(r)
 }
